@@ -659,7 +659,7 @@ pub mod vx_export {
                 Err(e) => bad.push(format!("batch_lookup(user-{i}) failed: {e}")),
             }
             let total = want_ver as usize;
-            for (params, want_n) in [(HistoryParams::Complete, total), (HistoryParams::MostRecent(1), 1), (HistoryParams::MostRecent(5), total)] {
+            for (params, want_n) in [(HistoryParams::Complete, total), (HistoryParams::MostRecent(1), 1), (HistoryParams::MostRecent(5), total), (HistoryParams::MostRecent(usize::MAX), total)] {
                 match dir.key_history(&name(i), params).await {
                     Ok((proof, eh)) => match key_history_verify::<TC>(pk.as_bytes(), eh.hash(), eh.epoch(), name(i), proof, HistoryVerificationParams::Default { history_params: params }) {
                         Ok(rs) => if rs.len() != want_n || rs[0].version != want_ver || rs[0].value != want { bad.push(format!("key_history(user-{i}, {params:?}) verified to {} entries starting at version {}", rs.len(), rs.first().map(|r| r.version).unwrap_or(0))) },
@@ -788,7 +788,7 @@ pub mod vx_export {
         }
     }
 
-    /// C14 (BOUNDED): one 4-epoch history is run under every combination of {sequential, parallel insertion} x {no cache, cache} x
+    /// C14 (BOUNDED): one 4-epoch history is run under every combination of {sequential, parallel insertion} x {no cache, default cache, 64-byte memory limit, 2 ms item lifetime} x
     /// {one long-lived instance, instance dropped and re-created over the same storage before every call} (x the runtime the caller
     /// drives it with); every variant must publish the SAME epoch hashes and verify every label to the same (value, version, epoch).
     pub async fn c14_variants<TC: Configuration>() -> Result<Vec<String>, AkdError> {
@@ -801,10 +801,17 @@ pub mod vx_export {
         ];
         let mut reference: Option<(Vec<(u64, crate::Digest)>, Vec<(u64, u64, Vec<u8>)>)> = None;
         let mut bad = vec![];
-        for par in [false, true] { for cache in [false, true] { for restart in [false, true] {
+        // cache: 0 none, 1 default, 2 tiny memory limit (64 bytes, cleaned every 2 ms), 3 shortest item lifetime (2 ms, cleaned every 2 ms)
+        for par in [false, true] { for cache in 0..4u8 { for restart in [false, true] {
             let db = AsyncInMemoryDatabase::new();
+            let ms = |n: u64| Some(std::time::Duration::from_millis(n));
             let mk = || async {
-                let st = if cache { StorageManager::new(db.clone(), None, None, None) } else { StorageManager::new_no_cache(db.clone()) };
+                let st = match cache {
+                    0 => StorageManager::new_no_cache(db.clone()),
+                    1 => StorageManager::new(db.clone(), None, None, None),
+                    2 => StorageManager::new(db.clone(), None, Some(64), ms(2)),
+                    _ => StorageManager::new(db.clone(), ms(2), None, ms(2)),
+                };
                 Directory::<TC, _, _>::new(st, HardCodedAkdVRF {}, if par { AzksParallelismConfig::default() } else { AzksParallelismConfig::disabled() }).await
             };
             let mut dir = mk().await?;
@@ -813,6 +820,7 @@ pub mod vx_export {
                 if restart { dir = mk().await?; }
                 let eh = dir.publish(b.clone()).await?;
                 hashes.push((eh.epoch(), eh.hash()));
+                if cache >= 2 { tokio::time::sleep(std::time::Duration::from_millis(3)).await; }   // let a clean tick pass
             }
             if restart { dir = mk().await?; }
             let pk = dir.get_public_key().await?;
